@@ -324,9 +324,48 @@ func (c *Ctx) pipeSaveName(save *core.FuncInfo) {
 		why := "the name is not the result of the unique-name function"
 		// flow-sensitive: the definition of the name (a local, or a field of a local record) that reaches the save
 		saveDef := c.designatorDef(fi, nameExpr, cs.Call.Pos())
+		dfi := fi
+		// imported.name with imported := <constructor>(…): the member as the constructor's returned literal sets it
+		if sel, isSel := core.Unparen(nameExpr).(*ast.SelectorExpr); isSel && saveDef == nil {
+			if rec := c.designatorDef(fi, sel.X, cs.Call.Pos()); rec != nil && rec.index == 0 {
+				if mk, isCall := core.Unparen(rec.rhs).(*ast.CallExpr); isCall {
+					if g := c.P.Funcs[c.P.StaticCallee(fi, mk)]; g != nil && g.Decl != nil && g.Decl.Body != nil {
+						var member ast.Expr
+						var at token.Pos
+						uniform := true
+						ast.Inspect(g.Decl.Body, func(nd ast.Node) bool {
+							ret, isRet := nd.(*ast.ReturnStmt)
+							if !isRet || len(ret.Results) != 1 {
+								return true
+							}
+							cl, isLit := core.Unparen(ret.Results[0]).(*ast.CompositeLit)
+							if !isLit {
+								uniform = false
+								return true
+							}
+							for _, el := range cl.Elts {
+								if kv, ok := el.(*ast.KeyValueExpr); ok {
+									if id, ok := kv.Key.(*ast.Ident); ok && id.Name == sel.Sel.Name {
+										if member != nil {
+											uniform = false
+										}
+										member, at = kv.Value, ret.Pos()
+									}
+								}
+							}
+							return true
+						})
+						if uniform && member != nil {
+							saveDef = c.designatorDef(g, member, at)
+							dfi = g
+						}
+					}
+				}
+			}
+		}
 		if saveDef != nil && saveDef.index == 0 {
 			if call, isCall := core.Unparen(saveDef.rhs).(*ast.CallExpr); isCall && len(call.Args) >= 1 {
-				if callee := c.P.StaticCallee(fi, call); callee != nil && c.isUniqifier(callee) {
+				if callee := c.P.StaticCallee(dfi, call); callee != nil && c.isUniqifier(callee) {
 					// first argument: <doc>.Definitions with <doc> the same expression as Save's first argument
 					if sel, isSel := core.Unparen(call.Args[0]).(*ast.SelectorExpr); isSel && sel.Sel.Name == "Definitions" && sameExpr(sel.X, cs.Call.Args[0]) {
 						ok = true
@@ -362,9 +401,19 @@ func (c *Ctx) pipeSaveName(save *core.FuncInfo) {
 			}
 			// the same designator, and the same value: the definition reaching the memo is the one reaching the save
 			same := sameExpr(as.Rhs[0], nameExpr)
-			if same && saveDef != nil {
+			if same && saveDef != nil && dfi == fi {
 				if md := c.designatorDef(fi, as.Rhs[0], as.Pos()); md == nil || md.pos != saveDef.pos {
 					same = false
+				}
+			}
+			if same && saveDef != nil && dfi != fi {
+				// a member of a record built by a constructor: the record reaching the memo is the one reaching the save
+				if sel, isSel := core.Unparen(nameExpr).(*ast.SelectorExpr); isSel {
+					r1 := c.designatorDef(fi, sel.X, as.Pos())
+					r2 := c.designatorDef(fi, sel.X, cs.Call.Pos())
+					if r1 == nil || r2 == nil || r1.pos != r2.pos {
+						same = false
+					}
 				}
 			}
 			c.S.Decide(same, "C01", "PIPE-REMEMBERED-NAME", fi.QName()+"/"+exprStr(ix.X), c.P.Pos(as.Pos()),
@@ -938,59 +987,100 @@ func (c *Ctx) skipSchemasValue(fi *core.FuncInfo, opt ast.Expr, depth int) *expr
 // of the candidate list whose branch fills it. Without it a complex schema stays inline after a full flatten (C03)
 // and an anonymous pointer is left in place (C02), with Flatten returning nil.
 func (c *Ctx) nameTotalRule(namer *core.FuncInfo) {
-	n := 0
+	// the function whose result feeds the naming loop: `for _, name := range F(…)` with the unique-name function
+	// called in the body
+	anchors := map[*core.FuncInfo]bool{}
 	for _, fi := range core.SortedSet(c.P.Reachable(namer)) {
-		if fi.Pkg.PkgPath != core.ModPath {
-			continue
-		}
-		sig := fi.Obj.Type().(*types.Signature)
-		if sig.Results().Len() != 1 {
-			continue
-		}
-		rs, ok := sig.Results().At(0).Type().Underlying().(*types.Slice)
-		if !ok || !core.IsString(rs.Elem()) {
-			continue
-		}
-		hasKey := false
-		for i := 0; i < sig.Params().Len(); i++ {
-			if _, tn := core.NamedOf(sig.Params().At(i).Type()); tn == "SplitKey" {
-				hasKey = true
+		ast.Inspect(fi.Decl.Body, func(nd ast.Node) bool {
+			rs, ok := nd.(*ast.RangeStmt)
+			if !ok {
+				return true
 			}
-		}
-		if !hasKey {
-			continue
-		}
-		n++
+			call, ok := core.Unparen(rs.X).(*ast.CallExpr)
+			if !ok {
+				return true
+			}
+			g := c.P.Funcs[c.P.StaticCallee(fi, call)]
+			if g == nil {
+				return true
+			}
+			uniq := false
+			for _, inner := range calls(rs.Body) {
+				if callee := c.P.StaticCallee(fi, inner); callee != nil && c.isUniqifier(callee) {
+					uniq = true
+				}
+				// the naming body may live in a helper of the namer
+				if h := c.P.Funcs[c.P.StaticCallee(fi, inner)]; h != nil && !uniq {
+					for _, c2 := range calls(h.Decl.Body) {
+						if callee := c.P.StaticCallee(h, c2); callee != nil && c.isUniqifier(callee) {
+							uniq = true
+						}
+					}
+				}
+			}
+			if uniq {
+				anchors[g] = true
+			}
+			return true
+		})
+	}
+	// emptyFallback: the body gives a list found empty another value — `if len(x) == 0 { x = … }`, or
+	// `if len(x) > 0 { return … }` followed by the return of another value
+	emptyFallback := func(fi *core.FuncInfo) bool {
 		info := c.info(fi)
-		fallback := false
+		found := false
 		ast.Inspect(fi.Decl.Body, func(nd ast.Node) bool {
 			ifs, ok := nd.(*ast.IfStmt)
 			if !ok {
 				return true
 			}
-			for _, cd := range core.SplitCond(ifs.Cond, false) {
-				x, empty, isE := core.EmptyTest(info, cd)
-				if !isE || !empty {
-					continue
-				}
-				o := core.ObjOf(info, x)
-				if o == nil || !core.IsSlice(o.Type()) {
-					continue
-				}
-				// the branch fills the list it found empty
-				ast.Inspect(ifs.Body, func(m ast.Node) bool {
-					if as, ok := m.(*ast.AssignStmt); ok {
-						for _, l := range as.Lhs {
-							if core.ObjOf(info, l) == o {
-								fallback = true
-							}
-						}
+			for _, pol := range []bool{false, true} {
+				for _, cd := range core.SplitCond(ifs.Cond, pol) {
+					x, empty, isE := core.EmptyTest(info, cd)
+					if !isE || !empty || !core.IsSlice(info.TypeOf(x)) {
+						continue
 					}
-					return true
-				})
+					if !pol {
+						// the branch runs when the list is empty: it assigns the list (or what holds it), or returns
+						root := rootIdent(x)
+						ast.Inspect(ifs.Body, func(m ast.Node) bool {
+							switch v := m.(type) {
+							case *ast.AssignStmt:
+								for _, l := range v.Lhs {
+									if id := rootIdent(l); id != nil && root != nil && core.ObjOf(info, id) == core.ObjOf(info, root) {
+										found = true
+									}
+								}
+							case *ast.ReturnStmt:
+								found = true
+							}
+							return true
+						})
+					} else if core.BlockLeaves(info, ifs.Body) {
+						// the branch leaves when the list is not empty: what follows is the fallback
+						found = true
+					}
+				}
 			}
 			return true
 		})
+		return found
+	}
+	n := 0
+	for _, fi := range core.SortedSet(anchors) {
+		n++
+		fallback := emptyFallback(fi)
+		if !fallback {
+			for _, call := range calls(fi.Decl.Body) {
+				if g := c.P.Funcs[c.P.StaticCallee(fi, call)]; g != nil && g != fi && g.Pkg.PkgPath == core.ModPath && emptyFallback(g) {
+					// a helper applied on the way to the result (candidates.orPointer(parts))
+					sig := g.Obj.Type().(*types.Signature)
+					if sig.Results().Len() == 1 && !core.IsString(sig.Results().At(0).Type()) {
+						fallback = true
+					}
+				}
+			}
+		}
 		for _, prop := range []string{"C03", "C02"} {
 			c.S.Decide(fallback, prop, "NAME-TOTAL", fi.QName(), c.P.Pos(fi.Decl.Pos()),
 				"the list of candidate names is given a fallback when the key's classification yields none",
@@ -998,7 +1088,7 @@ func (c *Ctx) nameTotalRule(namer *core.FuncInfo) {
 		}
 	}
 	if n < 1 {
-		c.S.Note("NAME-TOTAL: no function deriving candidate names from a split key found below the namer")
+		c.S.Note("NAME-TOTAL: no function feeding candidate names to the naming loop found below the namer")
 	}
 }
 
